@@ -1,11 +1,12 @@
 from contracts.h5graph import CONTRACTS as _H
+from contracts.repaired import PropertyGroupInitStub, CreatePropertyGroupMembers
 from contracts.tree import ALL_OF as _ALLOF, ParentSet, PropertyGroupAdd, PropertyGroupRemove
 from contracts.removal import RemoveRecursively, RemoveDataFromGroups, WorkspaceRemoveChildren
 from contracts.histories import ApiHistories, KfRemoveThroughParent
 from contracts.removal import ObjectRemoveChildren as _ORC
 from contracts.copy_wf import CopiesKeepFilesValid
 from contracts.copying import CopyPropertyGroupsSkippedMember
-CONTRACTS = list(_H) + [ParentSet, PropertyGroupAdd, PropertyGroupRemove, RemoveRecursively, RemoveDataFromGroups, WorkspaceRemoveChildren, ApiHistories, KfRemoveThroughParent] + list(_ALLOF) + [_ORC, CopiesKeepFilesValid, CopyPropertyGroupsSkippedMember]
+CONTRACTS = list(_H) + [ParentSet, PropertyGroupAdd, PropertyGroupRemove, RemoveRecursively, RemoveDataFromGroups, WorkspaceRemoveChildren, ApiHistories, KfRemoveThroughParent] + list(_ALLOF) + [_ORC, CopiesKeepFilesValid, CopyPropertyGroupsSkippedMember] + [PropertyGroupInitStub, CreatePropertyGroupMembers]
 
 MANIFEST = {
     "category": "proof",
